@@ -135,7 +135,7 @@ fn sem_case_inner(prop: &str, text: &str, orc: &Oracle, sorting: usize, labels: 
     let n = orc.n;
     st.cases += 1;
     let parser = AdfParser::default();
-    let parsed = guard(|| parser.parse()(text).is_ok());
+    let parsed = guard(|| crate::fam::parse_into(&parser, text));
     if parsed != Ok(true) {
         out.push(("parse".into(), format!("generated well-formed input was not accepted: {:?}", parsed)));
         return;
